@@ -1,6 +1,6 @@
 (* Timestamp spellings: T or t, Z or z or a numeric offset, with or without a zone name *)
 From Coq Require Import String.
-From Coq Require Import List NArith Bool Lia Arith.
+From Coq Require Import List NArith Bool Lia Arith ZifyBool.
 From HS Require Import Base.Prelude Model.Value Model.Escape Model.Version Model.Json Model.ZincParse.
 From HS Require Import Proofs.VersionP Proofs.EscapeP Proofs.JsonP Proofs.ZincParseP Proofs.ZincNumP Proofs.ZincDateP Proofs.ZincDateTimeP.
 Import ListNotations.
@@ -136,3 +136,15 @@ Proof.
   - right. exists 44, []. split; [reflexivity|cbn; tauto].
 Qed.
 Print Assumptions scalar_datetime_spelled.
+
+(* a zone name the ZINC grammar reads is one the JSON date-time pattern reads *)
+Lemma tzrest_char c : is_tzname_rest c = true -> is_tzname_char c = true.
+Proof. unfold is_tzname_rest, is_tzname_char, is_alpha, is_ascii_digit. intro H. lia. Qed.
+Lemma tzname_ok_json zn : tzname_ok zn -> zn <> [] /\ forallb is_tzname_char zn = true.
+Proof.
+  intros [E|H]; [subst; split; [discriminate|reflexivity]|].
+  destruct zn as [|c r]; [contradiction|]. destruct H as [Hu [_ [_ Hr]]]. split; [discriminate|].
+  cbn [forallb]. apply andb_true_iff. split.
+  - unfold is_upper in Hu. unfold is_tzname_char. lia.
+  - clear -Hr. induction Hr as [|x l Hx _ IH]; [reflexivity|]. cbn [forallb]. rewrite (tzrest_char x Hx), IH. reflexivity.
+Qed.
